@@ -118,6 +118,23 @@ def oracle(ck, tier, deep):
                 if e > 1e-13 * cond * R:
                     ck.violation(dict(sig, clause="operator-product"), dict(rep, term=k),
                                  f"inverse·forward radial operators differ from identity by {e:.3g}")
+            # the same pair in the state left behind by a transform whose weights leave some radii without valid pixels
+            try:
+                yy, xx = np.mgrid[-R:R + 1, -R:R + 1]
+                rr = np.hypot(yy, xx)
+                img = np.exp(-(rr - R / 2) ** 2 / (R / 5 + 1) ** 2) * (1 + 0.5 * (yy / (rr + 1e-9)) ** 2)
+                W = (rr > R / 3).astype(float)
+                quiet(abel.rbasex.rbasex_transform, img, order=order, odd=odd, weights=W)
+                Ai2 = [a.copy() for a in quiet(abel.rbasex.get_bs_cached, R, order, odd, "inverse")]
+                ck.count(("S.rbasex-after-mask", order, odd, R), suite="S.exact")
+                for k, (b, b2) in enumerate(zip(Ai, Ai2)):
+                    if b.shape != b2.shape or np.abs(b - b2).max() > 0:
+                        ck.violation(dict(sig, clause="operator-product-after-masked-call"), dict(rep, term=k),
+                                     f"after a transform with weights that mask radii < Rmax/3 the inverse radial operator of term {k} "
+                                     f"is no longer the inverse of the forward one (changed by {np.abs(b - b2).max():.3g})")
+                        break
+            except Exception as e:
+                ck.violation(dict(sig, clause="exception"), rep, f"{type(e).__name__}: {e}")
     # ---- approximate class on smooth profiles
     for n in ([51, 101] if not deep else [51, 101, 201, 301]):
         r = np.arange(n)
